@@ -190,6 +190,33 @@ func genProg(r *vl.Rng) *ProgD {
 			}
 		}
 	}
+	// constants whose value (not type) names an enum value or a constant of the same or an included file
+	for i := range g.p.Files {
+		for k := range g.p.Files[i].Decls {
+			d := &g.p.Files[i].Decls[k]
+			if d.Kind != "const" || !r.Chance(40) {
+				continue
+			}
+			type cand struct {
+				f int
+				n string
+			}
+			var cs []cand
+			for _, f := range g.visible(i) {
+				for _, e := range g.p.Files[f].Decls {
+					if e.Kind == "enum" || (e.Kind == "const" && f != i && e.ValDecl == "" && e.Ty.K == "base" && e.Ty.Base == "i32") {
+						cs = append(cs, cand{f, e.Name})
+					}
+				}
+			}
+			if len(cs) == 0 {
+				continue
+			}
+			c := cs[r.Intn(len(cs))]
+			d.Ty = &TyD{K: "base", Base: "i32"}
+			d.ValFile, d.ValDecl = c.f, c.n
+		}
+	}
 	// services: a service may extend an earlier service of its file or any service of an included file
 	for i := nf - 1; i >= 0; i-- {
 		ns := 0
@@ -254,6 +281,14 @@ func genProg(r *vl.Rng) *ProgD {
 				s.Fns = append(s.Fns, fn)
 			}
 			g.p.Files[i].Services = append(g.p.Files[i].Services, s)
+		}
+		// shuffle: a service may then extend one declared later in the same file (still acyclic)
+		if r.Chance(50) {
+			sv := g.p.Files[i].Services
+			for k := len(sv) - 1; k > 0; k-- {
+				j := r.Intn(k + 1)
+				sv[k], sv[j] = sv[j], sv[k]
+			}
 		}
 	}
 	return g.p
